@@ -227,6 +227,53 @@ fn run_free(req: &Value) -> Value {
     json!({"kind": "ok", "ret": last, "step": calls.len().saturating_sub(1)})
 }
 
+fn vres(r: crate::validate::ValidationResults) -> CallRes {
+    Ok(match r {
+        Ok(()) => Ok(Value::Null),
+        Err(e) => Err(anyhow!("{:?}", e)),
+    })
+}
+
+fn call_links(o: &mut Vec<crate::track::Link>, fname: &str, _a: &[Value]) -> CallRes {
+    use crate::validate::ObjState;
+    match fname {
+        "<[Link] as ObjState>::validate" => vres(o.as_slice().validate()),
+        _ => Err(Unsup(format!("no runner entry for {fname}"))),
+    }
+}
+
+fn call_elevs(o: &mut Vec<crate::track::Elev>, fname: &str, _a: &[Value]) -> CallRes {
+    use crate::validate::ObjState;
+    match fname {
+        "<[Elev] as ObjState>::validate" => vres(o.as_slice().validate()),
+        _ => Err(Unsup(format!("no runner entry for {fname}"))),
+    }
+}
+
+fn call_headings(o: &mut Vec<crate::track::Heading>, fname: &str, _a: &[Value]) -> CallRes {
+    use crate::validate::ObjState;
+    match fname {
+        "<[Heading] as ObjState>::validate" => vres(o.as_slice().validate()),
+        _ => Err(Unsup(format!("no runner entry for {fname}"))),
+    }
+}
+
+fn call_cats(o: &mut Vec<crate::track::CatPowerLimit>, fname: &str, _a: &[Value]) -> CallRes {
+    use crate::validate::ObjState;
+    match fname {
+        "<[CatPowerLimit] as ObjState>::validate" => vres(o.as_slice().validate()),
+        _ => Err(Unsup(format!("no runner entry for {fname}"))),
+    }
+}
+
+fn call_speed_limits(o: &mut Vec<crate::track::SpeedLimit>, fname: &str, _a: &[Value]) -> CallRes {
+    use crate::validate::ObjState;
+    match fname {
+        "<[SpeedLimit] as ObjState>::validate" => vres(o.as_slice().validate()),
+        _ => Err(Unsup(format!("no runner entry for {fname}"))),
+    }
+}
+
 pub fn dispatch(line: &str) -> String {
     let req: Value = match serde_json::from_str(line) {
         Ok(v) => v,
@@ -241,6 +288,11 @@ pub fn dispatch(line: &str) -> String {
         "TrainState" => <TrainStateTag as FileEntry>::call(&req),
         "SpeedLimitTrainSim" => <SpeedLimitTrainSimTag as FileEntry>::call(&req),
         "<free>" => run_free(&req),
+        "Vec<link_impl::Link>" => run::<Vec<crate::track::Link>>(&req, call_links),
+        "Vec<Elev>" => run::<Vec<crate::track::Elev>>(&req, call_elevs),
+        "Vec<Heading>" => run::<Vec<crate::track::Heading>>(&req, call_headings),
+        "Vec<CatPowerLimit>" => run::<Vec<crate::track::CatPowerLimit>>(&req, call_cats),
+        "Vec<SpeedLimit>" => run::<Vec<crate::track::SpeedLimit>>(&req, call_speed_limits),
         "Vec<SpeedLimitPoint>" => <SpeedPointTag as FileEntry>::call(&req),
         "PowerDistributionControlType" => run::<PowerDistributionControlType>(&req, call_pdct),
         "Locomotive" => run::<Locomotive>(&req, call_loco),
